@@ -18,6 +18,7 @@ Section StmtInd.
   Hypothesis Hif : forall a b, Forall P a -> Forall P b -> P (SIf a b).
   Hypothesis Hwhile : forall a, Forall P a -> P (SWhile a).
   Hypothesis Hfor : forall x a, Forall P a -> P (SFor x a).
+  Hypothesis Haug : forall x op e, P (SAug x op e).
   Fixpoint stmt_ind' (s : stmt) : P s :=
     let fix go (l : list stmt) : Forall P l :=
       match l with [] => Forall_nil _ | x :: r => Forall_cons _ (stmt_ind' x) (go r) end in
@@ -25,6 +26,7 @@ Section StmtInd.
     | SAssign x e => Hassign x e | SAppend x e => Happend x e | SRemove x e => Hremove x e
     | SObs o => Hobs o | SEmit v => Hemit v
     | SIf a b => Hif a b (go a) (go b) | SWhile a => Hwhile a (go a) | SFor x a => Hfor x a (go a)
+    | SAug x op e => Haug x op e
     end.
 End StmtInd.
 
@@ -319,6 +321,8 @@ Proof.
   - intros x a Fa orc rho rho' out orc' H y Hy. rewrite rstep_for in H. rewrite writes_for in Hy.
     destruct orc as [|k orc1]; [discriminate|].
     eapply rframe_fiter; [apply rframe_block, Fa|exact H| |]; intro; apply Hy; cbn; [left; congruence|tauto].
+  - intros x op e orc rho rho' out orc' H y Hy. rewrite rstep_simple in H by exact I. cbn [rsimple] in H.
+    destruct (peval rho (EBin op (EName x) e)); [|discriminate]. inversion H; subst. unfold lookup. apply tl_ne. cbn in Hy. intuition congruence.
 Qed.
 Lemma rframe_blocks b : rframe_blk b.
 Proof. apply rframe_block. apply Forall_forall. intros s _. apply rframe_all. Qed.
@@ -382,7 +386,7 @@ Qed.
 Lemma tframe_simple s : simple s -> tframe_stmt s.
 Proof.
   intros Hs te st te' st' res f H W. rewrite tstep_simple in H by exact Hs.
-  destruct s as [x e|x e|x e|o|v| | |]; try contradiction; cbn [tsimple] in H.
+  destruct s as [x e|x e|x e|o|v| | | |x op e]; try contradiction; cbn [tsimple] in H.
   - (* assign *)
     destruct (eval_const (view st te) e) as [v|k|] eqn:E; [| |discriminate].
     + destruct v; inversion H; subst; clear H;
@@ -413,13 +417,15 @@ Proof.
        | inversion H; subst; apply tframe_cons_any; [apply wf_cons_mark; exact W|exact W]
        | inversion H; subst; apply tframe_cons_any; [apply wf_cons_mark; exact W|exact W] ]).
   - (* obs *)
-    destruct o as [x|x|ge].
+    destruct o as [x|x|ge|x].
     + destruct (literal_length (view st te) (EName x)); inversion H; subst; apply tframe_refl; exact W.
     + destruct (tlookup x te) as [[v0|l|]|]; try discriminate.
       * destruct v0; try discriminate. destruct (forallb is_num_entry l); inversion H; subst. apply tframe_refl; exact W.
       * destruct (forallb is_num_entry (nth l st [])); inversion H; subst. apply tframe_refl; exact W.
     + destruct (glyph_bitmap (view st te) ge); inversion H; subst. apply tframe_refl; exact W.
+    + inversion H; subst. apply tframe_refl; exact W.
   - inversion H; subst. apply tframe_refl; exact W.
+  - inversion H; subst. apply tframe_cons_any; [apply wf_cons_mark; exact W|exact W].
 Qed.
 
 Lemma tframe_weaken ws ws' te st te' st' : (forall x, In x ws -> In x ws') -> tframe_concl ws te st te' st' -> tframe_concl ws' te st te' st'.
@@ -596,7 +602,7 @@ Proof.
   intros Hs te st te' st' res orc rho rho' out orc' H W R U Hr.
   rewrite tstep_simple in H by exact Hs. rewrite rstep_simple in Hr by exact Hs.
   pose proof (ragrees_agrees _ _ _ R) as AG.
-  destruct s as [x e|x e|x e|o|v| | |]; try contradiction; cbn [tsimple] in H; cbn [rsimple] in Hr.
+  destruct s as [x e|x e|x e|o|v| | | |x op e]; try contradiction; cbn [tsimple] in H; cbn [rsimple] in Hr.
   - (* assign *)
     remember (in_guard (view st te) e && negb (tmem x safe_name_references)) as g eqn:Hg.
     destruct (eval_const (view st te) e) as [v|k|] eqn:E; [| |discriminate].
@@ -666,7 +672,7 @@ Proof.
     destruct (robs o rho) as [ov|] eqn:O; [|discriminate]. inj Hr.
     assert (RB : rblock [SObs o] orc' rho' = Some (rho', [ov], orc')).
     { rewrite rblock_single, rstep_simple by exact I. cbn [rsimple]. rewrite O. reflexivity. }
-    destruct o as [x|x|ge].
+    destruct o as [x|x|ge|x].
     + destruct (literal_length (view st te) (EName x)) as [n|] eqn:LL; inj H.
       * split; [|split; assumption]. cbn [robs] in O. destruct (lookup x rho') as [xv|] eqn:Lr; [|discriminate].
         assert (PC : py_call n_len [xv] = Ok (VInt n)).
@@ -688,7 +694,14 @@ Proof.
       destruct gv; try discriminate;
         (destruct (glyph_rows l) as [zs'|]; [|discriminate]; destruct (Nat.eqb (length zs') 8); [|discriminate];
          inj GB; inj O; reflexivity).
+    + inj H. split; [exact RB|split; assumption].
   - exfalso. injection H; intros; discriminate.
+  - inj H. destruct (peval rho (EBin op (EName x) e)) as [pv|] eqn:P; [|discriminate]. inj Hr.
+    assert (Lx : exists w, lookup x rho = Some w).
+    { rewrite pe_bin, peval_name in P. destruct (lookup x rho) as [w|]; [eauto|discriminate]. }
+    destruct Lx as [w Lx].
+    split; [|split; [eapply ragrees_bind; [exact R|intros; reflexivity|exact I]|eapply unshadowed_rebind; eassumption]].
+    rewrite rblock_single, rstep_simple by exact I. cbn [rsimple]. rewrite P. reflexivity.
 Qed.
 
 Lemma flags4 a b c d : a && b && c && d = true -> a = true /\ b = true /\ c = true /\ d = true.
